@@ -363,14 +363,16 @@ func runSocksServerSeq(rounds int) ([]*socksTrace, error) {
 	cfg := map[string]any{"cmds": []string{}, "creds": []map[string]string{{"u": "alice", "p": "secret"}}, "form": "server"}
 	var out []*socksTrace
 	n := 0
+	var pulls []int
+	auth := "right"
 	one := func(name string, stream []byte, methods []int, may bool) {
 		n++
 		rec := vh.NewRecorder(stream)
-		sc := &vh.ScriptConn{Rec: rec, Slen: len(stream), EndKind: "eof", Start: time.Now(), Unit: time.Hour,
+		sc := &vh.ScriptConn{Rec: rec, Slen: len(stream), EndKind: "eof", Start: time.Now(), Unit: time.Hour, Pulls: pulls,
 			Remote: &net.TCPAddr{IP: net.IPv4(10, 9, 0, byte(n)), Port: 30000 + n}}
 		before := tgt.accepts.Load()
 		tr := &socksTrace{ID: fmt.Sprintf("socks:server:%d:%s", n, name), Cfg: cfg,
-			Sc: map[string]any{"methods": methods, "auth": "right", "cmd": 1, "atyp": 1}, Method: -1, AuthRep: -1, Reply: -1, May: may}
+			Sc: map[string]any{"methods": methods, "auth": auth, "cmd": 1, "atyp": 1}, Method: -1, AuthRep: -1, Reply: -1, May: may}
 		func() {
 			defer func() {
 				if r := recover(); r != nil {
@@ -393,6 +395,16 @@ func runSocksServerSeq(rounds int) ([]*socksTrace, error) {
 		one("alice", alice, []int{2}, true)
 		one("onebyte", []byte{5}, []int{}, false)
 		one("silent", []byte{}, []int{}, false)
+		// the version byte arrives alone, the rest later: greeting 05 01 02, then a user/password message that names the
+		// user "\x01\x05" with a password longer than what follows - to be refused. If the bytes "01 02" that the matcher
+		// looked at were lost on the way to the handler, the rest would read as alice's valid login.
+		odd := append([]byte{5, 1, 2, 1, 2}, alice[3:]...)
+		pulls, auth = []int{1, len(odd) - 1}, "wronguser"
+		one("split-odd", odd, []int{2}, false)
+		auth = "right"
+		pulls = []int{1, len(alice) - 1}
+		one("split-alice", alice, []int{2}, true)
+		pulls = nil
 	}
 	return out, nil
 }
